@@ -57,8 +57,9 @@ class World:
         self.sa = sa
         self.engine = sa.create_engine("sqlite:///" + os.path.join(_tmpdir(), "c48.db"))
         Base = declarative_base()
+        from harness.lib_orm2 import odd_mixin
 
-        class T(Base):
+        class T(odd_mixin("id", "val"), Base):
             __tablename__ = "t"
             id = sa.Column(sa.Integer, primary_key=True, autoincrement=False)
             val = sa.Column(sa.Integer)
